@@ -346,6 +346,13 @@ class PythonTemplater(RawTemplater):
                         "variables? https://docs.sqlfluff.com/en/stable/"
                         "perma/variables.html".format(err)
                     )
+            except (ValueError, IndexError) as err:
+                # Malformed format strings (e.g. a single "}" or an unclosed
+                # "{") and positional fields raise these.
+                raise SQLTemplaterError(
+                    "Failure in Python templating: {}. Check the braces in your "
+                    "file, literal braces need doubling.".format(err)
+                )
             return rendered_str
 
         raw_sliced, sliced_file, new_str = self.slice_file(
